@@ -33,3 +33,7 @@ mod vecs;
 mod slices;
 #[cfg(kani)]
 mod pool;
+#[cfg(kani)]
+mod zst;
+#[cfg(kani)]
+mod fail2;
